@@ -1,5 +1,125 @@
 // harness commands owned by the check of property C07 (see tools/props/C07.py)
-#[allow(unused_variables)]
+//
+// classes <opts> <src> <global name (hex)>...
+//   Runs the program (records O / R / M as `run`), then dumps every class object reachable from the named
+//   globals of module "main": a global that is a class; the class of a global instance, the values of its
+//   fields (recursively) and the receiver of a bound method; the `superclass` chain of every class found.
+//   One record per distinct class object, in discovery order:
+//     CL <hex name> <hex superclass name | -> <hex metaclass name> <methods> <metaclass methods>
+//   where a method table is `-` when empty, else `<hex key>=<identity>,...` sorted by key, and the identity
+//   of a method value is `native` or `<hex function name>/<arity>/<line of the first instruction>`.
+use std::collections::HashSet;
+
+use yarel::memory::Gc;
+use yarel::object::ObjClass;
+use yarel::value::Value;
+
+fn table(c: Gc<ObjClass>) -> String {
+    let mut entries: Vec<(String, String)> = c
+        .methods
+        .iter()
+        .map(|(k, v)| {
+            let id = match v {
+                Value::ObjClosure(cl) => {
+                    let f = cl.function;
+                    let line = f.chunk.lines.first().copied().unwrap_or(0);
+                    format!("{}/{}/{}", crate::hex(f.name.as_str().as_bytes()), f.arity, line)
+                }
+                Value::ObjNative(_) => "native".to_owned(),
+                _ => "other".to_owned(),
+            };
+            (k.as_str().to_owned(), id)
+        })
+        .collect();
+    entries.sort();
+    if entries.is_empty() {
+        return "-".to_owned();
+    }
+    entries
+        .iter()
+        .map(|(k, id)| format!("{}={}", crate::hex(k.as_bytes()), id))
+        .collect::<Vec<_>>()
+        .join(",")
+}
+
+fn visit_class(c: Gc<ObjClass>, seen: &mut HashSet<usize>, out: &mut Vec<String>) {
+    let key = &*c as *const ObjClass as usize;
+    if !seen.insert(key) {
+        return;
+    }
+    let sup = match c.superclass {
+        Some(s) => crate::hex(s.name.as_str().as_bytes()),
+        None => "-".to_owned(),
+    };
+    out.push(format!(
+        "CL {} {} {} {} {}",
+        crate::hex(c.name.as_str().as_bytes()),
+        sup,
+        crate::hex(c.metaclass.name.as_str().as_bytes()),
+        table(c),
+        table(c.metaclass)
+    ));
+    if let Some(s) = c.superclass {
+        visit_class(s, seen, out);
+    }
+}
+
+fn visit_value(v: Value, seen: &mut HashSet<usize>, seen_inst: &mut HashSet<usize>, out: &mut Vec<String>, depth: usize) {
+    if depth > 16 {
+        return;
+    }
+    match v {
+        Value::ObjClass(c) => visit_class(c, seen, out),
+        Value::ObjInstance(i) => {
+            let key = i.as_ptr() as usize;
+            if !seen_inst.insert(key) {
+                return;
+            }
+            let (class, vals): (Gc<ObjClass>, Vec<Value>) = {
+                let b = i.borrow();
+                (b.class, b.fields.values().copied().collect())
+            };
+            visit_class(class, seen, out);
+            for f in vals {
+                visit_value(f, seen, seen_inst, out, depth + 1);
+            }
+        }
+        Value::ObjBoundMethod(b) => {
+            let r = b.borrow().receiver;
+            visit_value(r, seen, seen_inst, out, depth + 1);
+        }
+        Value::ObjBoundNative(b) => {
+            let r = b.borrow().receiver;
+            visit_value(r, seen, seen_inst, out, depth + 1);
+        }
+        _ => {}
+    }
+}
+
+fn cmd_classes(args: &[&str], out: &mut Vec<String>) {
+    let o = crate::parse_opts(args[0]);
+    let src = crate::unhex_str(args[1]);
+    crate::gcv::set_deref_check(Some(crate::deref_check));
+    let mut vm = crate::new_vm();
+    crate::setup(&o);
+    let r = yarel::vm::interpret(&mut vm, src, None);
+    crate::emit_result(out, &r);
+    let mut seen: HashSet<usize> = HashSet::new();
+    let mut seen_inst: HashSet<usize> = HashSet::new();
+    for a in &args[2..] {
+        let name = crate::unhex_str(a);
+        if let Some(v) = vm.global("main", &name) {
+            visit_value(v, &mut seen, &mut seen_inst, out, 0);
+        }
+    }
+}
+
 pub fn dispatch(cmd: &str, args: &[&str], out: &mut Vec<String>) -> bool {
-    false
+    match cmd {
+        "classes" => {
+            cmd_classes(args, out);
+            true
+        }
+        _ => false,
+    }
 }
